@@ -37,10 +37,25 @@ func invalidKey(wrap bool, what string) error {
 	return slip10.ErrInvalidKey
 }
 
-// fault injection: the failAt-th call (1-based) of the selected method returns errPermanent.
+// fault injection: the failAt-th call (1-based) of the selected method returns a permanent error.
 type fault struct {
 	inNew   int // NewPrivateKey call number that fails permanently (0 = never)
 	inShift int // Shift call number that fails permanently (0 = never)
+	kind    int // which error: see permanentError
+}
+
+// permanentError: an error that is not "invalid key": the harness's own, or one of the library's other
+// sentinels (a curve built on top of the library may well return those), bare or wrapped.
+func permanentError(kind int) error {
+	switch kind {
+	case 1:
+		return slip10.ErrNotHardened
+	case 2:
+		return slip10.ErrHardenedChildPublicKey
+	case 3:
+		return fmt.Errorf("toy curve: %w", slip10.ErrNotHardened)
+	}
+	return errPermanent
 }
 
 // ---- toy Weierstrass curve: P-256 arithmetic, extra validity mask ----
@@ -60,7 +75,7 @@ func (t *toyW) NewPrivateKey(buf []byte) (slip10.Key, error) {
 	t.cnt.tick()
 	t.nNew++
 	if t.fault.inNew != 0 && t.nNew == t.fault.inNew {
-		return nil, errPermanent
+		return nil, permanentError(t.fault.kind)
 	}
 	if buf[31]&t.mask != 0 {
 		return nil, invalidKey(t.wrap, "candidate")
@@ -92,7 +107,7 @@ func (p *toyWPriv) Shift(buf []byte) (slip10.Key, error) {
 	p.c.cnt.tick()
 	*p.c.nShift++
 	if p.c.fault.inShift != 0 && *p.c.nShift == p.c.fault.inShift {
-		return nil, errPermanent
+		return nil, permanentError(p.c.fault.kind)
 	}
 	if buf[31]&p.c.mask != 0 {
 		return nil, invalidKey(p.c.wrap, "shift")
@@ -120,7 +135,7 @@ func (p *toyWPub) Shift(buf []byte) (slip10.Key, error) {
 	p.c.cnt.tick()
 	*p.c.nShift++
 	if p.c.fault.inShift != 0 && *p.c.nShift == p.c.fault.inShift {
-		return nil, errPermanent
+		return nil, permanentError(p.c.fault.kind)
 	}
 	if buf[31]&p.c.mask != 0 {
 		return nil, invalidKey(p.c.wrap, "shift")
@@ -153,7 +168,7 @@ func (t *toyS) NewPrivateKey(buf []byte) (slip10.Key, error) {
 	t.cnt.tick()
 	t.nNew++
 	if t.fault.inNew != 0 && t.nNew == t.fault.inNew {
-		return nil, errPermanent
+		return nil, permanentError(t.fault.kind)
 	}
 	if buf[31]&t.mask != 0 {
 		return nil, invalidKey(t.wrap, "candidate")
@@ -179,7 +194,7 @@ func (k *toySKey) Shift(buf []byte) (slip10.Key, error) {
 	k.c.cnt.tick()
 	*k.c.nShift++
 	if k.c.fault.inShift != 0 && *k.c.nShift == k.c.fault.inShift {
-		return nil, errPermanent
+		return nil, permanentError(k.c.fault.kind)
 	}
 	if buf[31]&k.c.mask != 0 {
 		return nil, invalidKey(k.c.wrap, "shift")
